@@ -57,6 +57,8 @@ ILo(t) == IF t.lo = Unset THEN IntLo(t.p) ELSE t.lo
 IHi(t) == IF t.hi = Unset THEN IntHi(t.p) ELSE t.hi
 FLo(t) == IF t.lo = Unset THEN FloatLo(t.p) ELSE t.lo
 FHi(t) == IF t.hi = Unset THEN FloatHi(t.p) ELSE t.hi
+\* the patterns of the universe (p1 = [a-c...]+) match no empty string
+PatOk(t, v) == t.pat = "" \/ (v.ok /\ v.len > 0)
 LenOk(t, n) == (t.min = Unset \/ n >= t.min) /\ (t.max = Unset \/ n <= t.max)
 MinLen(t) == IF t.min = Unset THEN 0 ELSE t.min
 MaxLen(t, dflt) == IF t.max = Unset THEN (IF MinLen(t) > dflt THEN MinLen(t) ELSE dflt) ELSE t.max
@@ -75,7 +77,7 @@ ValidStructFields(sc, c, f, perms) ==
 Valid(sc, t, v, perms) ==
     CASE t.k = "int"    -> v.k = "int" /\ ILo(t) <= v.r /\ v.r <= IHi(t)
       [] t.k = "float"  -> v.k = "float" /\ FLo(t) <= v.r /\ v.r <= FHi(t)
-      [] t.k = "str"    -> v.k = "str" /\ LenOk(t, v.len) /\ (t.pat = "" \/ v.ok)
+      [] t.k = "str"    -> v.k = "str" /\ LenOk(t, v.len) /\ PatOk(t, v)
       [] t.k = "bytes"  -> v.k = "bytes" /\ LenOk(t, v.len)
       [] t.k = "bool"   -> v.k = "bool"
       [] t.k = "ts"     -> v.k = "ts"
@@ -145,7 +147,8 @@ Vals(sc, t, d, perms) ==
     IF d = 0 THEN {Base(sc, t)} ELSE
     CASE t.k = "int"    -> {VInt(r) : r \in {x \in {ILo(t), IHi(t), IZero} : ILo(t) <= x /\ x <= IHi(t)}}
       [] t.k = "float"  -> {VFloat(r) : r \in {x \in {FLo(t), FHi(t), FHalf} : FLo(t) <= x /\ x <= FHi(t)}}
-      [] t.k = "str"    -> {CStr(MinLen(t), TRUE, 0), CStr(MaxLen(t, 3), TRUE, 1)}
+      [] t.k = "str"    -> {CStr(IF t.pat # "" /\ MinLen(t) = 0 THEN 1 ELSE MinLen(t), TRUE, 0),
+                            CStr(MaxLen(t, 3), TRUE, 1)}
       [] t.k = "bytes"  -> {CBytes(MinLen(t), 0), CBytes(MaxLen(t, 3), 1)}
       [] t.k = "bool"   -> {VBool(TRUE), VBool(FALSE)}
       [] t.k = "ts"     -> {VTs(0), VTs(1)}
@@ -349,7 +352,7 @@ Dec(sc, t, doc, strict, perms, devs) ==
              [] OTHER            -> Err
       [] t.k = "str"    ->
            IF doc.k # "jstr" THEN Err
-           ELSE CASE doc.of = "str" -> IF LenOk(t, doc.v.len) /\ (t.pat = "" \/ doc.v.ok) THEN Ok(doc.v) ELSE Err
+           ELSE CASE doc.of = "str" -> IF LenOk(t, doc.v.len) /\ PatOk(t, doc.v) THEN Ok(doc.v) ELSE Err
                   [] doc.of = "bad" -> IF LenOk(t, 5) /\ t.pat = "" THEN Unspec ELSE Err
                   [] doc.of = "nonascii" -> IF LenOk(t, 3) /\ t.pat = "" THEN Unspec ELSE Err
                   [] OTHER          -> Unspec
